@@ -630,7 +630,23 @@ func tsGenCase(tp *simrt.Tape, p *tsPlan, nextTry *int) {
 			}
 			continue
 		}
-		switch tp.Weighted(2, 3, 3, 2, 2, 2, 2, 2, 2, 3, 4, 1, 1, 1) {
+		switch tp.Weighted(2, 3, 3, 2, 2, 2, 2, 2, 2, 3, 4, 1, 1, 1, 2) {
+		case 14:
+			// no single audience names both this server and this group: one
+			// names the server with another group, one the group on another server
+			t.Note += "+splitaud"
+			other := tsTargets[tp.Draw(len(tsTargets))]
+			if other == target {
+				other = target + "x"
+			}
+			host := p.Host
+			if host == "" {
+				host = "whatever.example.net"
+			}
+			t.Aud = []tsAud{{Scheme: "https", Host: host, Path: "/group/" + other + "/"}, {Scheme: "https", Host: "other.example.org", Path: "/group/" + target + "/"}}
+			if tp.Chance(1, 2) {
+				t.Aud[0], t.Aud[1] = t.Aud[1], t.Aud[0]
+			}
 		case 0:
 			t.Note += "+none"
 			t.Alg = "none"
